@@ -3,6 +3,7 @@ package main
 // go/ssa (naive form) -> IVL.
 
 import (
+	"go/constant"
 	"fmt"
 	"math/big"
 	"go/token"
@@ -816,6 +817,34 @@ func (f *frame) edgeTo(from, to *ssa.BasicBlock, cond Expr, cur *Block) {
 	cur.Goto(f.phiStub(from, to))
 }
 
+// sameLoad: two loads of the same address in one basic block with nothing but pure
+// instructions between them (naive SSA form re-loads a local for every use).
+func sameLoad(a, b ssa.Value) bool {
+	la, ok1 := a.(*ssa.UnOp)
+	lb, ok2 := b.(*ssa.UnOp)
+	if !ok1 || !ok2 || la.Op != token.MUL || lb.Op != token.MUL || la.X != lb.X || la.Block() != lb.Block() {
+		return false
+	}
+	in := false
+	for _, ins := range la.Block().Instrs {
+		if ins == ssa.Instruction(la) || ins == ssa.Instruction(lb) {
+			if in {
+				return true
+			}
+			in = true
+			continue
+		}
+		if in {
+			switch ins.(type) {
+			case *ssa.BinOp, *ssa.UnOp, *ssa.Convert, *ssa.ChangeType, *ssa.DebugRef, *ssa.IndexAddr, *ssa.FieldAddr:
+			default:
+				return false
+			}
+		}
+	}
+	return false
+}
+
 // orExact makes x|y exact in the int theory for the shapes the repository uses:
 // a constant operand (each run of one-bits is set), or a field that was cleared
 // with &^mask and is filled with a value confined to that mask.
@@ -849,6 +878,40 @@ func (f *frame) orExact(x *ssa.BinOp, a, b, res Expr) Expr {
 	}
 	if c, ok := litInt(a); ok && c.Sign() >= 0 {
 		return setRuns(b, c)
+	}
+	// rotation: v<<k | v>>(w-k) of the same unsigned v: the two parts have no bit in common
+	rot := func(l, r ssa.Value) bool {
+		lb, ok1 := l.(*ssa.BinOp)
+		rb, ok2 := r.(*ssa.BinOp)
+		if !ok1 || !ok2 || lb.Op != token.SHL || rb.Op != token.SHR {
+			return false
+		}
+		// the same value: the same SSA value, or (naive form) two loads that translate to the same term
+		if lb.X != rb.X && !sameLoad(lb.X, rb.X) {
+			return false
+		}
+		lk, ok1 := lb.Y.(*ssa.Const)
+		rk, ok2 := rb.Y.(*ssa.Const)
+		if !ok1 || !ok2 || lk.Value == nil || rk.Value == nil {
+			return false
+		}
+		a1, e1 := constant.Int64Val(constant.ToInt(lk.Value))
+		a2, e2 := constant.Int64Val(constant.ToInt(rk.Value))
+		return e1 && e2 && a1 > 0 && a2 > 0 && a1+a2 == int64(w)
+	}
+	if rot(x.X, x.Y) || rot(x.Y, x.X) {
+		if t.th.named32 && w == 32 {
+			sh := x.X.(*ssa.BinOp)
+			if sh.Op != token.SHL {
+				sh = x.Y.(*ssa.BinOp)
+			}
+			k, _ := constant.Int64Val(constant.ToInt(sh.Y.(*ssa.Const).Value))
+			usedRolsMu.Lock()
+			usedRols[int(k)] = true
+			usedRolsMu.Unlock()
+			return mk(fmt.Sprintf("u32.rol%d", k), SInt, f.val(sh.X).e)
+		}
+		return IAdd(a, b)
 	}
 	// cleared field | confined value
 	try := func(clearedV ssa.Value, cleared, other Expr) bool {
@@ -1140,7 +1203,7 @@ func (f *frame) zeroRange(mem *Cell, base Expr, n int64, elem types.Type) {
 	t := f.t
 	th := t.th
 	z := th.Zero(elem)
-	if n <= 32 {
+	if n <= 8 {
 		var e Expr = mem
 		for i := int64(0); i < n; i++ {
 			e = Store(e, th.AAdd(base, th.AddrLit(i)), z)
@@ -1195,7 +1258,7 @@ func (f *frame) storeArray(base Expr, arr Expr, u *types.Array) {
 	mem := t.mem(u.Elem())
 	n := u.Len()
 	t.checkWrite(mem, base, th.AAdd(base, th.AddrLit(n)), "array-store")
-	if n <= 32 {
+	if n <= 8 {
 		var e Expr = mem
 		for i := int64(0); i < n; i++ {
 			e = Store(e, th.AAdd(base, th.AddrLit(i)), Select(arr, th.AddrLit(i)))
@@ -1216,7 +1279,7 @@ func (f *frame) loadArray(base Expr, u *types.Array) Expr {
 	mem := t.mem(u.Elem())
 	n := u.Len()
 	as := ArrayOf(th.Addr(), th.SortOf(u.Elem()))
-	if n <= 32 {
+	if n <= 8 {
 		var e Expr = th.Zero(types.NewArray(u.Elem(), n))
 		for i := int64(0); i < n; i++ {
 			e = Store(e, th.AddrLit(i), Select(mem, th.AAdd(base, th.AddrLit(i))))
@@ -1227,7 +1290,7 @@ func (f *frame) loadArray(base Expr, u *types.Array) Expr {
 	t.cur.Havoc(c)
 	a := &Var{"a!l", th.Addr()}
 	in := And(th.ALe(th.AddrLit(0), a), th.ALt(a, th.AddrLit(n)))
-	t.cur.Assume(&Quant{Forall: true, Vars: []*Var{a}, Body: Implies(in, Eq(Select(c, a), Select(mem, th.AAdd(base, a)))), Pats: [][]Expr{{Select(c, a)}}})
+	t.cur.Assume(&Quant{Forall: true, Vars: []*Var{a}, Body: Implies(in, Eq(Select(c, a), Select(mem, th.AIdx(base, a)))), Pats: [][]Expr{{Select(c, a)}}})
 	return c
 }
 
